@@ -320,10 +320,14 @@ class Engine:
         ec.st.assume(r == h.alloc)
         h.alloc = r + 1
         ec.st.assume(typ(r) == cid(cls_name))
+        if self.is_vm(ec) and cls_name in ("list", "dict", "set"):
+            ec.st.ghost["_open"] = ec.st.ghost.get("_open", ()) + (r,)
         return r
 
     def alloc_list(self, items, ec, cls_name="list"):
         items = [self.mat(x, ec) for x in items]
+        for x in items:
+            self.note_store(ec, x)
         h = ec.st.heap
         r = self.new_ref(ec, cls_name)
         arr = fresh("lit", smt.ArrIV)
@@ -344,14 +348,70 @@ class Engine:
             self.dict_set(ec, r, toV(k), toV(v) if v is not None else V.none)
         return tV(V.ref(r))
 
-    def check_write(self, ec, r):
+    # ------------------------------------------------------------------ value mode (frames)
+    def is_vm(self, ec):
         fx = getattr(ec, "fx", None)
-        if fx is not None and getattr(fx, "contract", None) is not None and fx.contract.opts.get("value_mode"):
-            self.emit(fx, "frame", getattr(ec, "line", 0), ec.st, z3.Implies(ec.g(), r >= FRONT),
-                      note="value mode: only objects created by this call tree are written")
+        return fx is not None and getattr(fx, "contract", None) is not None and bool(fx.contract.opts.get("value_mode"))
+
+    def vm_checkpoint(self, st, fx=None):
+        """remember the current heap as a frame checkpoint: later spec-function applications to objects that already
+        exist now (and are not open builders written since) are equated with their value in this heap"""
+        st.ghost["_ck"] = (dict(st.heap.a), st.heap.alloc)
+        st.ghost["_X"] = ()
+        st.ghost["_ckvalid"] = True
+        st.ghost["_frames"] = frozenset()
+        prev = st.ghost.get("_cks", ())
+        st.ghost["_cks"] = prev + ((dict(st.heap.a), st.heap.alloc),)
+
+    def check_write(self, ec, r):
+        if not self.is_vm(ec):
+            return
+        fx = ec.fx
+        self.emit(fx, "frame", getattr(ec, "line", 0), ec.st, z3.Implies(ec.g(), r >= FRONT),
+                  note="value mode: only objects created by this call tree are written")
+        g = ec.st.ghost
+        ck = g.get("_ck")
+        if ck is None:
+            return
+        rs = simp(r)
+        if any(rs.eq(x) for x in g.get("_X", ())):
+            return
+        if self.must(ec.st, r >= ck[1]):
+            return
+        if any(rs.eq(b) for b in g.get("_open", ())):
+            g["_X"] = g.get("_X", ()) + (rs,)
+            g["_frames"] = frozenset()
+            return
+        g["_ckvalid"] = False
+
+    def note_store(self, ec, v):
+        """value v is being stored into the heap / handed to a callee: an open builder that may equal it escapes"""
+        if not self.is_vm(ec):
+            return
+        g = ec.st.ghost
+        opens = g.get("_open", ())
+        if not opens:
+            return
+        if isinstance(v, T):
+            if v.k != "V":
+                return
+            v = v.t
+        vs = simp(v)
+        keep = []
+        for b in opens:
+            if z3.is_app(vs) and vs.decl().name() in ("none", "b", "i", "r", "s", "cls"):
+                keep.append(b)
+            elif vs.eq(V.ref(b)) or not self.must(ec.st, v != V.ref(b)):
+                if any(b.eq(x) for x in g.get("_X", ())):
+                    g["_ckvalid"] = False   # a builder written since the checkpoint becomes reachable from elsewhere
+            else:
+                keep.append(b)
+        g["_open"] = tuple(keep)
 
     def dict_set(self, ec, r, k, v):
         self.check_write(ec, r)
+        self.note_store(ec, v)
+        self.note_store(ec, k)
         h = ec.st.heap
         a = dict(h.a)
         had = a["dhas"][r][k]
@@ -895,6 +955,86 @@ class Engine:
         return z3.Exists(qvars, z3.And(guards + [body]))
 
     # ==================================================================================================
+    # list comprehensions
+    # ==================================================================================================
+    def ev_ListComp(self, e, ec):
+        """[elt for x in xs]  (single generator, no filter).
+        With a sidecar comprehension contract (`comps`, keyed by the source text): `each` - a predicate over the loop
+        variable(s) and `_item` - is proved for an arbitrary index (the element expression is executed once, from a state
+        in which the earlier elements have already been built) and then assumed for all elements of the result.
+        Without one the element expression must be pure: result[i] == elt(xs[i])."""
+        if ec.spec:
+            raise CheckerError("list comprehension inside a contract expression")
+        if len(e.generators) != 1 or e.generators[0].ifs or e.generators[0].is_async:
+            raise OutOfSubset("comprehension with several generators or a filter (line %d)" % e.lineno)
+        if ec.guard:
+            raise OutOfSubset("comprehension under a short-circuit guard (line %d)" % e.lineno)
+        gen = e.generators[0]
+        fx = ec.fx
+        text = ast.unparse(e)
+        cspec = fx.contract.opts.get("comps", {}).get(text)
+        st = ec.st
+        n, get = self.iter_domain(gen.iter, ec, e.lineno)
+        st.assume(n >= 0)
+        # ---- one arbitrary element
+        i = fresh("ci", IntS)
+        si = st.copy()
+        si.assume(z3.And(i >= 0, i < n))
+        eci = EC(si)
+        eci.fx = fx
+        if cspec is not None or True:
+            if self.is_vm(eci) or cspec is not None:
+                self.havoc_alloc_only(eci)     # earlier elements may have allocated
+        self.bind_for_target(gen.target, get(i), eci, e.lineno)
+        heap_before = dict(si.heap.a)
+        v = self.mat(self.ev(e.elt, eci), eci)
+        for cond, exc in eci.raises:
+            self.emit(fx, "comp-no-raise", e.lineno, si, z3.Not(cond), note="element expression of %s does not raise (%s)" % (text[:60], exc.what))
+            si.assume(z3.Not(cond))
+        pure = all(si.heap.a[m].eq(heap_before[m]) for m in HEAP_NAMES)
+        tnames = [nm.id for nm in ast.walk(gen.target) if isinstance(nm, ast.Name)]
+        if cspec is None and not pure:
+            raise CheckerError("comprehension %r allocates or calls a contract: it needs a `comps` entry in the sidecar" % text)
+        if cspec is not None:
+            s_eval = St(dict(si.env), si.heap, si.pc, ghost=dict(si.ghost))
+            s_eval.env["_item"] = v
+            s_eval.env["_i"] = T("i", i)
+            for txt, f in self.spec_conj(cspec["each"], s_eval, fx.entry, fx):
+                self.emit(fx, "comp-each", e.lineno, si, f, note="comprehension element: " + txt)
+        # ---- the result in the outer state
+        if not pure or cspec is not None:
+            self.havoc_alloc_only(ec)
+        r = self.new_ref(ec, "list")
+        arr = fresh("comp", smt.ArrIV)
+        self.list_set_all(ec, r, n, arr)
+        q = fresh("cq", IntS)
+        from .tr import forall as _forall
+        h = st.heap
+        st.assume(_forall([q], z3.Implies(z3.And(q >= 0, q < n), z3.Implies(is_ref(arr[q]), z3.And(V.rv(arr[q]) >= 0, V.rv(arr[q]) < h.alloc))), [arr[q]]))
+        if cspec is not None:
+            sq = St(dict(st.env), st.heap, st.pc, ghost=dict(st.ghost))
+            ecq = EC(sq)
+            ecq.fx = fx
+            # bind the loop variable(s) to the q-th source item, `_item` to the q-th result
+            item = get(q)
+            if isinstance(item, tuple):
+                raise OutOfSubset("tuple targets in contracted comprehensions")
+            sq.env[tnames[0]] = item
+            sq.env["_item"] = tV(arr[q])
+            sq.env["_i"] = T("i", q)
+            for txt, f in self.spec_conj(cspec["each"], sq, fx.entry, fx):
+                st.assume(_forall([q], z3.Implies(z3.And(q >= 0, q < n), f), [arr[q]]))
+        else:
+            # pure: re-evaluate the element expression for the quantified index
+            sq = st.copy()
+            ecq = EC(sq)
+            ecq.fx = fx
+            self.bind_for_target(gen.target, get(q), ecq, e.lineno)
+            vq = self.ev(e.elt, ecq)
+            st.assume(_forall([q], z3.Implies(z3.And(q >= 0, q < n), arr[q] == toV(vq)), [arr[q]]))
+        return tV(V.ref(r))
+
+    # ==================================================================================================
     # calls
     # ==================================================================================================
     def ev_Call(self, e, ec):
@@ -934,7 +1074,12 @@ class Engine:
     def args_of(self, e, ec):
         if any(isinstance(a, ast.Starred) for a in e.args) or any(k.arg is None for k in e.keywords):
             raise OutOfSubset("*args/**kwargs at a call (line %d)" % e.lineno)
-        return [self.mat(self.ev(a, ec), ec) for a in e.args], {k.arg: self.mat(self.ev(k.value, ec), ec) for k in e.keywords}
+        args = [self.mat(self.ev(a, ec), ec) for a in e.args]
+        kwargs = {k.arg: self.mat(self.ev(k.value, ec), ec) for k in e.keywords}
+        if not ec.spec:
+            for x in args + list(kwargs.values()):
+                self.note_store(ec, x)
+        return args, kwargs
 
     # -- spec vocabulary -------------------------------------------------------------------------
     def call_spec(self, name, e, ec):
@@ -955,29 +1100,48 @@ class Engine:
         return T(sp["res"], sp["f"](*(hp + zs)))
 
     def frame_axiom(self, name, sp, ec):
-        """A-FRAME (value mode): a spec function applied to *input* values (objects below FRONT, closed under membership
-        by acyclic()) reads only input objects; value mode never writes those (checked by the `frame` obligations), hence its
-        value in any later heap equals its value in the entry heap."""
-        fx = getattr(ec, "fx", None)
-        if fx is None or getattr(fx, "contract", None) is None or not fx.contract.opts.get("value_mode"):
+        """A-FRAME (value mode).  A spec function reads the heap only through objects reachable from its arguments.
+        (1) inputs: objects below FRONT are never written (`frame` obligations) and are closed under membership
+            (acyclic()), so f(H, inputs) == f(H_entry, inputs) for every later heap H;
+        (2) checkpoints: since the last checkpoint (heap Hc, frontier nc) the engine has seen writes only to objects
+            allocated after it or to *open builders* X (fresh local containers that were never stored anywhere, hence
+            unreachable from any other object); so for arguments that existed at the checkpoint and are not in X,
+            f(H, args) == f(Hc, args)."""
+        if not self.is_vm(ec):
             return
         h, h0 = ec.st.heap, self.h0
-        if all(h.a[n].eq(h0.a[n]) for n in SPEC_HEAP):
-            return
-        key = (name,) + tuple(h.a[n].get_id() for n in SPEC_HEAP)
-        done = ec.st.ghost.setdefault("_frames", set())
-        if key in done:
-            return
-        done.add(key)
-        qs = [z3.Const("fa_%s" % pn, KIND_SORT[k]) for pn, k in sp["params"]]
-        inp = [z3.Implies(is_ref(q), z3.And(V.rv(q) >= 0, V.rv(q) < FRONT)) for q, (_, k) in zip(qs, sp["params"]) if k == "V"]
-        lhs = sp["f"](*(h.spec_args() + qs))
-        rhs = sp["f"](*(h0.spec_args() + qs))
+        g = ec.st.ghost
         from .tr import forall as _forall
-        ec.st.assume(_forall(qs, z3.Implies(z3.And(inp) if inp else z3.BoolVal(True), lhs == rhs), [lhs]))
-        self.assumptions.add("A-FRAME: in value-mode functions a spec function applied to input values has the same value in every "
-                             "later heap as in the entry heap (inputs are never written: `frame` obligations; inputs are closed under "
-                             "membership: acyclic())")
+        hid = tuple(h.a[n].get_id() for n in SPEC_HEAP)
+        done = g.get("_frames", frozenset())
+        todo = []
+        for nm, spx in self.specs.items():
+            if spx["heap"] and (nm,) + hid not in done:
+                todo.append((nm, spx))
+        if not todo:
+            return
+        g["_frames"] = done | frozenset((nm,) + hid for nm, _ in todo)
+        for nm, spx in todo:
+            qs = [z3.Const("fa_%s" % pn, KIND_SORT[k]) for pn, k in spx["params"]]
+            lhs = spx["f"](*(h.spec_args() + qs))
+            if not all(h.a[n].eq(h0.a[n]) for n in SPEC_HEAP):
+                inp = [z3.Implies(is_ref(q), z3.And(V.rv(q) >= 0, V.rv(q) < FRONT)) for q, (_, k) in zip(qs, spx["params"]) if k == "V"]
+                rhs = spx["f"](*(h0.spec_args() + qs))
+                ec.st.assume(_forall(qs, z3.Implies(z3.And(inp) if inp else z3.BoolVal(True), lhs == rhs), [lhs]))
+            ck = g.get("_ck")
+            if ck is not None and g.get("_ckvalid") and not all(h.a[n].eq(ck[0][n]) for n in SPEC_HEAP):
+                X = g.get("_X", ())
+                cond = []
+                for q, (_, k) in zip(qs, spx["params"]):
+                    if k == "V":
+                        cond.append(z3.Implies(is_ref(q), z3.And([V.rv(q) >= 0, V.rv(q) < ck[1]] + [V.rv(q) != x for x in X])))
+                rhs = spx["f"](*([ck[0][n] for n in SPEC_HEAP] + qs))
+                ec.st.assume(_forall(qs, z3.Implies(z3.And(cond) if cond else z3.BoolVal(True), lhs == rhs), [lhs]))
+                ec.st.assume(_forall(qs, z3.Implies(z3.And(cond) if cond else z3.BoolVal(True), lhs == rhs), [rhs]))
+        self.assumptions.add("A-FRAME: in value-mode functions a spec function applied to values that existed at a checkpoint (function "
+                             "entry, loop head, return of an allocating callee) has the same value in every later heap, provided the "
+                             "engine saw writes only to younger objects or to open builders (fresh containers never stored anywhere); "
+                             "inputs (below FRONT) are never written: `frame` obligations")
 
     def sp_old(self, e, ec):
         if ec.old is None:
@@ -1518,6 +1682,7 @@ class Engine:
         if ec.guard:
             raise OutOfSubset("conditional mutation inside an expression")
         n = h.llen(r)
+        self.note_store(ec, toV(x))
         self.list_set_all(ec, r, n + 1, z3.Store(h.a["lel"][r], n, toV(x)))
         return tV(V.none)
 
@@ -1662,11 +1827,42 @@ class Engine:
         post_heap = ec.st.heap
         if c.assigns:
             self.havoc_heap(ec.st, c.assigns, penv, e.lineno)
+        elif c.opts.get("allocates"):
+            self.havoc_alloc_only(ec)
         res = T(c.result, fresh("res_" + c.name, KIND_SORT[c.result]))
         post_st = St(dict(penv), ec.st.heap, ec.st.pc, ghost={"result": res})
         for text, f in self.spec_conj(c.ensures, post_st, pre_st, callee_fx):
             ec.assume(f)
         return res
+
+    def havoc_alloc_only(self, ec):
+        """effect of a value-mode callee: new objects may appear, every existing object is unchanged"""
+        st = ec.st
+        h = st.heap
+        old_a, old_alloc = dict(h.a), h.alloc
+        a = {n: fresh(n, HEAP_SORTS[n]) for n in HEAP_NAMES}
+        na = fresh("alloc", IntS)
+        st.assume(na >= old_alloc)
+        r = z3.Int("r!")
+        from .tr import forall as _forall
+        for n in HEAP_NAMES:
+            st.assume(_forall([r], z3.Implies(z3.And(r >= 0, r < old_alloc), a[n][r] == old_a[n][r]), [a[n][r]]))
+        h.a, h.alloc = a, na
+        for f in heap_wf_axioms(h):
+            st.assume(f)
+        if self.is_vm(ec):
+            # frame facts across the call for every heap spec function, then a new checkpoint
+            for nm, spx in self.specs.items():
+                if not spx["heap"]:
+                    continue
+                qs = [z3.Const("fa_%s" % pn, KIND_SORT[k]) for pn, k in spx["params"]]
+                cond = [z3.Implies(is_ref(q), z3.And(V.rv(q) >= 0, V.rv(q) < old_alloc)) for q, (_, k) in zip(qs, spx["params"]) if k == "V"]
+                lhs = spx["f"](*(h.spec_args() + qs))
+                rhs = spx["f"](*([old_a[n] for n in SPEC_HEAP] + qs))
+                body = z3.Implies(z3.And(cond) if cond else z3.BoolVal(True), lhs == rhs)
+                st.assume(_forall(qs, body, [lhs]))
+                st.assume(_forall(qs, body, [rhs]))
+            self.vm_checkpoint(st)
 
     def ghost_refs(self, ec):
         fx = getattr(ec, "fx", None)
